@@ -33,6 +33,7 @@ func checkC07(ctx *Ctx, r *Report) {
 	c07PassState(ctx, r, eng)
 	c07ConfigOwnership(ctx, r)
 	c07Merge(ctx, r)
+	c07HuntedRules(ctx, r)
 	c07CallbackState(ctx, r)
 	c18Payloads(ctx, r)
 	stickyErrors(ctx, r, "errflow/sticky", func(p *packages.Package) bool {
@@ -1164,4 +1165,171 @@ func c07NameKeyedState(ctx *Ctx, r *Report, eng *effectsEngine) {
 	}
 	r.Count("name-keyed maps kept by passes", n)
 	r.Floor("name-keyed maps kept by passes", 1)
+}
+
+// c07HuntedRules: three clauses found by a bug hunt on C07.
+//
+//	merge/entry-point-conflict    Schema.Merge: two non-empty entry points that differ are a conflict, like two different
+//	                              definitions of an object: some path under the comparison of the entry points returns an
+//	                              error.
+//	siblings/package-key-exact    a jenny that groups what it generates by package keys the group by the package name
+//	                              itself: a case-folded key (strings.ToLower(x.Package)) merges packages that the type
+//	                              jenny of the same language keeps apart.
+//	siblings/collector-key        the maps of the API-reference collector are not keyed by a string joined from two names
+//	                              (fmt.Sprintf("%s_%s", pkg, name)): `a_b`+`c` and `a`+`b_c` collide.
+func c07HuntedRules(ctx *Ctx, r *Report) {
+	// --- Merge
+	fn := ctx.LookupMethod("internal/ast", "Schema", "Merge")
+	fd, p := ctx.DeclOf(fn)
+	if fd == nil || fd.Body == nil {
+		r.Undecided("anchor lost: ast.Schema.Merge")
+	} else {
+		info := p.TypesInfo
+		errT := types.Universe.Lookup("error").Type()
+		compared, conflict := 0, false
+		ast.Inspect(fd.Body, func(n ast.Node) bool {
+			is, ok := n.(*ast.IfStmt)
+			if !ok {
+				return true
+			}
+			be, ok := ast.Unparen(is.Cond).(*ast.BinaryExpr)
+			if !ok || be.Op != token.NEQ {
+				return true
+			}
+			fx, fy := fieldOf(info, be.X), fieldOf(info, be.Y)
+			if fx == nil || fx != fy || fx.Name() != "EntryPoint" {
+				return true
+			}
+			compared++
+			ast.Inspect(is.Body, func(m ast.Node) bool {
+				if inner, ok := m.(*ast.IfStmt); ok && blockReturnsError(info, inner.Body, errT) {
+					conflict = true
+				}
+				return true
+			})
+			if blockReturnsError(info, is.Body, errT) {
+				conflict = true
+			}
+			return true
+		})
+		r.Count("comparisons of entry points in Schema.Merge", compared)
+		r.Floor("comparisons of entry points in Schema.Merge", 1)
+		r.Check(conflict, "merge/entry-point-conflict", "ast.Schema.Merge entry points", fd.Pos(), "differing entry points can end in an error",
+			"Merge compares the entry points of the two schemas but no path under that comparison returns an error: when both inputs of a package declare an entry point and they differ, the second one is silently dropped and the result depends on the order of the inputs")
+	}
+	// --- package keys
+	keys := 0
+	for _, pk := range ctx.Pkgs {
+		if !strings.HasPrefix(ctx.RelPkg(pk.PkgPath), "internal/jennies/") {
+			continue
+		}
+		info := pk.TypesInfo
+		for _, f := range pk.Syntax {
+			for _, d := range f.Decls {
+				fdecl, ok := d.(*ast.FuncDecl)
+				if !ok || fdecl.Body == nil {
+					continue
+				}
+				fobj, _ := info.Defs[fdecl.Name].(*types.Func)
+				seen := map[string]bool{}
+				ast.Inspect(fdecl.Body, func(n ast.Node) bool {
+					ix, ok := n.(*ast.IndexExpr)
+					if !ok {
+						return true
+					}
+					if _, isMap := info.TypeOf(ix.X).Underlying().(*types.Map); !isMap {
+						return true
+					}
+					c, ok := ast.Unparen(ix.Index).(*ast.CallExpr)
+					if !ok || len(c.Args) != 1 {
+						// keys naming a package directly
+						if f := fieldOf(info, ix.Index); f != nil && f.Name() == "Package" {
+							keys++
+						}
+						return true
+					}
+					fn := callee(info, c)
+					if fn == nil || fn.Pkg() == nil || fn.Pkg().Path() != "strings" || (fn.Name() != "ToLower" && fn.Name() != "ToUpper") {
+						return true
+					}
+					if f := fieldOf(info, c.Args[0]); f == nil || f.Name() != "Package" {
+						return true
+					}
+					keys++
+					cons := ctx.FuncName(fobj) + " groups by " + exprString(ix.Index)
+					if seen[cons] {
+						return true
+					}
+					seen[cons] = true
+					r.Bad("siblings/package-key-exact", cons, ix.Pos(), "the map is keyed by a case-folded package name: two packages whose names differ only by case fall into one group — one generated file holds the output of both (same-named classes shadow each other) while the type jenny of the language keeps the packages apart; adding the second package changes the file of the first")
+					return true
+				})
+			}
+		}
+	}
+	r.Count("maps keyed by a package name in the jennies", keys)
+	r.Floor("maps keyed by a package name in the jennies", 3)
+	if keys > 0 {
+		r.OK("siblings/package-key-exact", "jennies group by exact package names", token.NoPos, fmt.Sprintf("%d map accesses keyed by a package name were scanned for case folding", keys))
+	}
+	// --- collector keys
+	cp := ctx.Pkg("internal/jennies/common")
+	if cp == nil {
+		r.Undecided("anchor lost: internal/jennies/common")
+		return
+	}
+	cinfo := cp.TypesInfo
+	joined := 0
+	for _, f := range cp.Syntax {
+		for _, d := range f.Decls {
+			fdecl, ok := d.(*ast.FuncDecl)
+			if !ok || fdecl.Body == nil || fdecl.Recv == nil {
+				continue
+			}
+			if n := namedOf(cinfo.TypeOf(fdecl.Recv.List[0].Type)); n == nil || n.Obj().Name() != "APIReferenceCollector" {
+				continue
+			}
+			fobj, _ := cinfo.Defs[fdecl.Name].(*types.Func)
+			// locals defined by Sprintf with two or more %s
+			ambiguous := map[types.Object]string{}
+			ast.Inspect(fdecl.Body, func(n ast.Node) bool {
+				as, ok := n.(*ast.AssignStmt)
+				if !ok || len(as.Lhs) != 1 || len(as.Rhs) != 1 {
+					return true
+				}
+				c, ok := ast.Unparen(as.Rhs[0]).(*ast.CallExpr)
+				if !ok || len(c.Args) < 3 {
+					return true
+				}
+				if fn := callee(cinfo, c); fn == nil || fn.Name() != "Sprintf" {
+					return true
+				}
+				if lit, ok := c.Args[0].(*ast.BasicLit); ok && strings.Count(lit.Value, "%s") >= 2 {
+					if id, ok := as.Lhs[0].(*ast.Ident); ok {
+						ambiguous[objOf(cinfo, id)] = lit.Value
+					}
+				}
+				return true
+			})
+			ast.Inspect(fdecl.Body, func(n ast.Node) bool {
+				ix, ok := n.(*ast.IndexExpr)
+				if !ok {
+					return true
+				}
+				if _, isMap := cinfo.TypeOf(ix.X).Underlying().(*types.Map); !isMap {
+					return true
+				}
+				joined++
+				if id, ok := ast.Unparen(ix.Index).(*ast.Ident); ok {
+					if format, bad := ambiguous[objOf(cinfo, id)]; bad {
+						r.Bad("siblings/collector-key", ctx.FuncName(fobj)+" keys "+exprString(ix.X)+" by a joined string", ix.Pos(), "the key is fmt.Sprintf("+format+", …) of two names: different pairs give the same string (`a_b`+`c`, `a`+`b_c`), so the methods of a builder of one package are listed on the page of a builder of another — adding an unrelated input changes the files of the first")
+					}
+				}
+				return true
+			})
+		}
+	}
+	r.Count("map accesses in the API-reference collector", joined)
+	r.Floor("map accesses in the API-reference collector", 6)
+	r.OK("siblings/collector-key", "API-reference collector keys", token.NoPos, fmt.Sprintf("%d map accesses scanned for keys joined from two names", joined))
 }
